@@ -25,6 +25,7 @@ type vsrvC08Desc struct {
 	Bodies    []int    `json:"body_bytes"`
 	Steps     int      `json:"steps"`
 	Script    []string `json:"script"`
+	WUResBit  bool     `json:"window_updates_with_reserved_bit"`
 }
 
 // vsrvC08Plan builds the write pattern of one handler.
@@ -92,11 +93,12 @@ func vsrvC08Session(r *verifrt.R, c *verifrt.Case, sched string, directed int) {
 		d.MaxFrame = vsrvPick[int64](rng, 0, 16384, 16384, 20000)
 		d.Streams = 2 + rng.IntN(3)
 	}
+	d.WUResBit = rng.IntN(4) == 0
 	c.Describe(d)
 
 	var s *vsrvSession
 	inner, outer := vsrvBubble(r.T, func() {
-		s = vsrvNewSession(vsrvConfig{Groups: vsrvGrpFlow, Sched: sched})
+		s = vsrvNewSession(vsrvConfig{Groups: vsrvGrpFlow, Sched: sched, WUReservedBit: d.WUResBit})
 		s.start()
 		vsrvC08Script(s, rng, d, directed)
 		s.finish()
